@@ -19,7 +19,7 @@ for f in os.listdir(src):
     else:
         shutil.copy(s, f"{dst}/{f}")
 notes = open(f"{src}/notes.md").read() if os.path.exists(f"{src}/notes.md") else ""
-m = re.search(r"^#+\s*What it needs[^\n]*\n(.*?)(?=^#+\s|\Z)", notes, re.S | re.M)
+m = re.search(r"^#+\s*(?:What it needs|Needed to manifest|Needs)[^\n]*\n(.*?)(?=^#+\s|\Z)", notes, re.S | re.M)
 needs = re.sub(r"\s+", " ", m.group(1)).strip()[:1500] if m else ""
 log = open(f"{src}/verify.log").read()
 suite_part = log.split("### demo with patch")[0]
